@@ -59,6 +59,8 @@ EvalOther(pos) ==
   /\ hist' = Append(hist, [a |-> pos, compiled |-> Admissible, stale |-> FALSE])
   /\ UNCHANGED <<cls, topc, topsig, memo, memosig>>
 
+\* (routes: "top" a::v at top level, "fn" a::v inside a function, "py" klong['a'] = NumPy value, "pylist" klong['a'] = a plain
+\* Python list / number - data a Python caller hands over, which is not one of the kinds the compiler admits)
 \* rebinding a variable to a value of another class; every route goes through KlongInterpreter.__setitem__ or the
 \* context and clears _compiled_cache, none touches the node memos
 Rebind(v, c, route) ==
@@ -69,7 +71,7 @@ Rebind(v, c, route) ==
   /\ UNCHANGED <<topsig, memo, memosig>>
 
 Next == \/ EvalTop \/ EvalFn \/ EvalOther("evallam") \/ EvalOther("evalarg")
-        \/ \E v \in Vars, c \in Classes, r \in {"top", "py", "fn"} : Rebind(v, c, r)
+        \/ \E v \in Vars, c \in Classes, r \in {"top", "py", "pylist", "fn"} : Rebind(v, c, r)
 
 \* the text-keyed cache never serves code admitted under other classes
 TopNeverStale == topc = "code" => topsig = cls
